@@ -102,6 +102,15 @@ class MemFS:
             del self.files[p]
         self._op("unlink", p, "after")
 
+    def replace(self, src, dst):
+        """os.replace: atomic rename over an existing file"""
+        src, dst = str(src), str(dst)
+        self._op("replace", dst, "before")
+        if src not in self.files:
+            raise FileNotFoundError(src)
+        self.files[dst] = self.files.pop(src)
+        self._op("replace", dst, "after")
+
     def rmtree(self, p):
         self._op("rmtree", p, "before")
         if p not in self.dirs:
@@ -124,12 +133,13 @@ class _WFile:
             raise ValueError("I/O operation on closed file.")
         if not self.binary:
             data = data.encode("utf8")
-        self.fs._op("write", self.p, "before")
         self.buf += bytes(data)
         if len(self.buf) >= 8192:
+            # the buffer spills to the file: only now does a write change what a crash would leave behind
+            self.fs._op("write-flush", self.p, "before")
             self.fs.files[self.p] = self.fs.files.get(self.p, b"") + self.buf
             self.buf = b""
-        self.fs._op("write", self.p, "after")
+            self.fs._op("write-flush", self.p, "after")
         return len(data)
 
     def flush(self):
@@ -194,6 +204,26 @@ class FakePath:
         return "FakePath(%r)" % self.p
 
 
+class _Os:
+    """the subset of `os` a file manager may use for atomic replacement"""
+
+    def __init__(self, fs):
+        self.fs = fs
+        import os as _os
+        self.path = _os.path
+        self.fspath = _os.fspath
+
+    def replace(self, src, dst):
+        self.fs.replace(src, dst)
+
+    rename = replace
+
+    def unlink(self, p):
+        self.fs.unlink(str(p))
+
+    remove = unlink
+
+
 class _Shutil:
     def __init__(self, fs):
         self.fs = fs
@@ -213,8 +243,12 @@ def install(fs, server_fm=None, client_fm=None):
         server_fm._PROGRAM_PATH = FakePath(fs, "/home/.sse")
         server_fm.open = fs.open
         server_fm.shutil = _Shutil(fs)
+        if hasattr(server_fm, "os"):
+            server_fm.os = _Os(fs)
     if client_fm is not None:
         fs.mkdir_quiet("/home/.sse/client")
         client_fm._PROGRAM_PATH = FakePath(fs, "/home/.sse/client")
         client_fm.open = fs.open
         client_fm.shutil = _Shutil(fs)
+        if hasattr(client_fm, "os"):
+            client_fm.os = _Os(fs)
